@@ -18,13 +18,27 @@ def s1 : Ty := .struct [.mk (b "zeta") .str true, .mk (b "alpha") i32 true, .mk 
 def s2 : Ty := .struct [.mk (b "items") (.seq s1) true, .mk (b "by_name") (.map s1) true, .mk (b "flag") .bool true]
 def s3 : Ty := .struct [.mk (b "id") u16 true, .mk (b "label") (.opt .str) false, .mk (b "bytes") (.opt (.seq i8)) false]
 
+def pis : Ty := .pair i32 .str
+def s4 : Ty := .struct [.mk (b "fl") (.seq .str) true, .mk (b "li") (.seq .bool) true, .mk (b "dq") (.seq .str) true, .mk (b "pr") pis true,
+  .mk (b "tp") (.tuple [i32, .str]) true, .mk (b "ar") (.array i32 2) true, .mk (b "st") (.set .str true) true, .mk (b "op") (.opt (.pair i32 i32)) false]
+
 def tyOf : String → Option Ty
   | "i32" => some i32 | "u8" => some u8 | "i64" => some i64 | "u64" => some u64 | "str" => some .str | "bool" => some .bool
   | "vi32" => some (.seq i32) | "mi16" => some (.map i16) | "tup" => some (.tuple [i32, .str, .bool]) | "oi32" => some (.opt i32)
   | "vos" => some (.seq (.opt .str)) | "s1" => some s1 | "s2" => some s2 | "s3" => some s3 | "pair" => some (.pair i32 .str)
-  | "arr3" => some (.array i32 3) | "vvu16" => some (.seq (.seq u16)) | "sets" => some (.set .str)
+  | "arr3" => some (.array i32 3) | "vvu16" => some (.seq (.seq u16)) | "sets" => some (.set .str false)
   | "enum" => some (.enum [b "red", b "green", b "blue"]) | "var" => some (.variant [i32, .str]) | "sps1" => some (.opt s1)
   | "vs1" => some (.seq s1) | "ms3" => some (.map s3)
+  -- the standard sequence / set containers (forward_list, list, deque, multiset, unordered_set, unordered_map)
+  | "fls" => some (.seq .str) | "flp" => some (.seq pis) | "lso" => some (.seq (.opt i32)) | "lss" => some (.seq .str)
+  | "dqb" => some (.seq .bool) | "dqs" => some (.seq (.opt .str)) | "msets" => some (.set .str true) | "usets" => some (.set .str false)
+  | "umi" => some (.map i32) | "ovi" => some (.opt (.seq i32)) | "moi" => some (.map (.opt i32)) | "mfl" => some (.map (.seq .str))
+  -- fixed shapes on their own, in each other and in containers
+  | "vpair" => some (.seq pis) | "mpair" => some (.map (.pair i32 i32)) | "vtup" => some (.seq (.tuple [i32, .str]))
+  | "mtup" => some (.map (.tuple [.bool, i32, .str])) | "tup1" => some (.tuple [i32]) | "tup2" => some (.tuple [.str, i32])
+  | "ppair" => some (.pair (.pair i32 i32) .str) | "pvo" => some (.pair (.opt i32) (.seq .str)) | "arr2s" => some (.array .str 2)
+  | "arr22" => some (.array (.array i32 2) 2) | "varr" => some (.seq (.array i32 2)) | "marr" => some (.map (.array i32 3))
+  | "opair" => some (.opt pis) | "s4" => some s4
   | _ => none
 
 /-- ty <typeId> <format> | <json value> -/
